@@ -322,7 +322,8 @@ def amplify(r, e, p, lits):
 
 def family(r, named):
     """Hand-shaped grammar families whose un-memoised evaluation is exponential in the input."""
-    kind = r.choice(['nested-alts', 'lookahead-list', 'rep-choice', 'longest-nest', 'shared-prefix-seq', 'single-site'])
+    kind = r.choice(['nested-alts', 'lookahead-list', 'rep-choice', 'longest-nest', 'shared-prefix-seq', 'single-site',
+                     'ignore-interplay'])
     long_texts = []
     n_long = r.choice([150, 400, 1200, 3000])
     hook = lambda tag, e: (['right', ['hook', tag], e] if r.random() < 0.8 else e)
@@ -381,6 +382,32 @@ def family(r, named):
         items.append({'k': 'rule', 'name': 'N', 'expr': hook('h4', ['re', '[xy]'])})
         texts = ['aaab', 'aaac', 'aabcc;aab', 'aaaa', 'xy;yx', 'aaxaab', 'abcabc;', 'aaa;aaab;x']
         long_texts = ['aaac' * n_long, ('aab' + 'c' * 3 + ';') * (n_long // 2) + 'aaaa']
+    elif kind == 'ignore-interplay':
+        # what the skipping of ignorable text evaluates is evaluated "within the parse call" like everything
+        # else: (a) an ordinary rule that an ignore rule refers to as well (a comment starts with two
+        # of the tokens that the grammar also uses singly), (b) a first token that may be empty, so that the
+        # skip after it asks for the ignore rules again where the leading skip stopped
+        sl = hook('h1', ['lit', '/'])
+        items.append({'k': 'rule', 'name': 'start', 'expr': ['right', ['re', 'x*'], ['star', ['ref', 'Item']]]
+                      if r.random() < 0.5 else ['star', ['ref', 'Item']]})
+        items.append({'k': 'rule', 'name': 'Item', 'expr': hook('h2', ['alt', ['seq', ['ref', 'Sl'], ['ref', 'Name']],
+                                                                       ['seq', ['ref', 'Sign'], ['ref', 'Num']], ['ref', 'Name']])})
+        items.append({'k': 'rule', 'name': 'Sl', 'expr': sl})
+        items.append({'k': 'rule', 'name': 'Sign', 'expr': hook('h3', ['re', 'x*'])})
+        items.append({'k': 'rule', 'name': 'Num', 'expr': ['re', '[0-9]+']})
+        if r.random() < 0.5:
+            items.append({'k': 'class', 'name': 'Name', 'fields': [{'name': 'h', 'expr': ['hook', 'h4'], 'mod': 'pass'},
+                                                                   {'name': 'n', 'expr': ['re', '[a-c]'], 'mod': ''}]})
+        else:
+            items.append({'k': 'rule', 'name': 'Name', 'expr': hook('h4', ['re', '[a-c]'])})
+        items.append({'k': 'rule', 'name': 'Cm', 'ignore': True,
+                      'expr': hook('h5', ['seq', ['ref', 'Sl'], ['ref', 'Sl'], ['re', '[a-c]+!']])})
+        items.append({'k': 'rule', 'name': 'Sp', 'ignore': True, 'expr': hook('h6', ['re', '[ \\n]+'])})
+        if r.random() < 0.5:
+            items.reverse()
+            items.sort(key=lambda it: it['name'] != 'start')
+        texts = ['  /a', '/a /b //ab! /c', ' 7 x7', 'a  /b //c!\n /a', '//a!', ' x', '', ' /a//b! 12 ', 'xx /a b', '\n\n7']
+        long_texts = [' /a //ab! 7 x7 b' * (n_long // 4), '  ' + '/a' * n_long]
     elif kind == 'lookahead-list':
         # start = List([Expect(T), T]) ; the result must contain one object twice
         items.append({'k': 'rule', 'name': 'start', 'expr': ['star', ['seq', ['expect', ['ref', 'T']], ['ref', 'T']]]})
@@ -405,7 +432,7 @@ def family(r, named):
         items.append({'k': 'rule', 'name': 'R', 'expr': hook('h2', ['alt', ['seq', ['lit', '('], ['ref', 'L'], ['lit', ')']], ['lit', 'a']])})
         texts = ['a', 'ax', '((a)x)y', '(((((a)x)y)x)y)', '((((((((a))))))))', '(((a)x']
         long_texts = ['(' * n_long + 'a' + ')x' * n_long, '(' * n_long + 'a' + ')' * (n_long - 1)]
-    if r.random() < 0.4:
+    if kind != 'ignore-interplay' and r.random() < 0.4:
         items.append({'k': 'ignore', 'expr': ['re', ' +']})
         texts = [(' '.join(t) if r.random() < 0.5 else t) for t in texts]
     s = {'named': bool(named), 'extends': None, 'items': items}
